@@ -106,6 +106,15 @@ Definition pm_eqb (a b : pmat) : bool := list_eqb (list_eqb peqb) a b.
 Definition mexpr_eqb (cf : config) (m1 m2 : mexpr) : bool :=
   match mnorm cf m1, mnorm cf m2 with Some a, Some b => pm_eqb a b | _, _ => false end.
 
+(* diagnostics (not used by the soundness theorems): positions (row, column) and differences of the entries that differ *)
+Definition pm_diff (a b : pmat) : list (nat * nat * poly) :=
+  flat_map (fun irr => let '(i, (ra, rb)) := irr in
+              flat_map (fun jpq => let '(j, (x, y)) := jpq in let d := psub x y in if pzerob d then [] else [(i, j, d)])
+                       (combine (seq 0 (length ra)) (combine ra rb)))
+           (combine (seq 0 (length a)) (combine a b)).
+Definition mexpr_diff (cf : config) (m1 m2 : mexpr) : option (list (nat * nat * poly)) :=
+  match mnorm cf m1, mnorm cf m2 with Some a, Some b => Some (pm_diff a b) | _, _ => None end.
+
 (* ---------- soundness ---------- *)
 Lemma optmap_sound {A B D} (g : A -> option B) (h : A -> D) (k : B -> D) :
   (forall x y, g x = Some y -> h x = k y) -> forall l l', optmap g l = Some l' -> map h l = map k l'.
